@@ -377,6 +377,35 @@ def _constant_suffix(prog, fn, e, depth=0):
         return None
     if k == "CXXOperatorCallExpr" and e.get("op") == "+" and len(e["c"]) == 3:
         return _constant_suffix(prog, fn, e["c"][2], depth + 1)
+    if k == "DeclRefExpr" and e.get("dk") == "Var" and "[" in (e.get("t") or ""):
+        # a char array filled by exactly one s(n)printf with a literal format
+        import re
+        fills = []
+        for n in fn.walk():
+            if n.get("k") == "CallExpr" and notpl(n.get("q") or "").split("::")[-1] in ("snprintf", "sprintf"):
+                a = call_args(n)
+                if a and (strip_all(a[0]) or {}).get("d") == e.get("d"):
+                    fills.append(n)
+            elif any(d == e.get("d") for d, _ in flow.written_decls(n)):
+                return None
+        if len(fills) != 1:
+            return None
+        call = fills[0]
+        a = call_args(call)
+        is_n = notpl(call.get("q") or "").endswith("snprintf")
+        fmt = strip_all(a[2 if is_n else 1]) if len(a) > (2 if is_n else 1) else None
+        if fmt is None or fmt.get("k") != "StringLiteral":
+            return None
+        text = fmt.get("s") or ""
+        convs = list(re.finditer(r"%[-0 +#]*\d*(?:\.\d+)?([a-zA-Z%]+)", text))
+        if any(c.group(1) not in ("d", "u", "x", "X", "i", "o", "c", "%") for c in convs):
+            return None
+        longest = len(re.sub(r"%[-0 +#]*\d*(?:\.\d+)?[a-zA-Z%]+", "", text)) + 11 * len(convs)
+        m = re.search(r"\[(\d+)\]", e.get("t") or "")
+        if not m or longest + 1 > int(m.group(1)):
+            return None   # could be truncated: the end of the text is not certain
+        tail = text[convs[-1].end():] if convs else text
+        return tail or None
     if k == "DeclRefExpr" and e.get("dk") in ("Var", "ParmVar"):
         written = False
         for n in fn.walk():
